@@ -501,6 +501,17 @@ def setup_logging(
 
 ############################################################################
 #
+def quoted(value: str) -> str:
+    """
+    `value` as an IMAP quoted string: `\\` and `"` escaped, inside double
+    quotes.
+    """
+    value = value.replace("\\", "\\\\").replace('"', '\\"')
+    return f'"{value}"'
+
+
+####################################################################
+#
 def parsedate(datetime_str: str) -> datetime:
     """Parse an RFC 2822 date string into a timezone-aware UTC datetime.
 
